@@ -272,6 +272,14 @@ func c19Scenario(c *Ctx, i int, r *Rng) {
 		}
 		c.R.Count("track.nested-macro." + nestedMacro)
 	}
+	if nestedMacro == "" && r.Chance(8) {
+		filename = false
+		arg = Pick(r, []string{"*.dat", "*.[ch]", "img/*.png", "/rooted.dat", "data/**/*.bin"})
+		// the pattern is already MENTIONED by a line that does not assign the filter (lockable without LFS,
+		// as the manual describes for non-LFS files; an explicit -filter): it is not tracked yet
+		pre = Pick(r, []string{"", "*.txt text\n"}) + arg + Pick(r, []string{" lockable\n", " -filter\n", " text\n", " filter=other\n"})
+		c.R.Count("track.mentioned-not-tracked")
+	}
 	wd := filepath.Join(dir, sub)
 	if pre != "" {
 		os.WriteFile(filepath.Join(wd, ".gitattributes"), []byte(pre), 0o644)
@@ -367,6 +375,12 @@ func c19Scenario(c *Ctx, i int, r *Rng) {
 	for _, q := range others {
 		if beforeText[q] != afterText[q] && !(filename && q == rel(arg)) && !strings.Contains(string(attrs1), "-text\n") {
 			fail("`git lfs track` changed the `text` attribute of a path the argument does not denote", q+": text "+beforeText[q]+" -> "+afterText[q], "")
+		}
+	}
+	if strings.HasSuffix(pre, " lockable\n") && instance[arg] != "" && fault == "" {
+		// tracked without a lock flag: the lockable attribute the line carried is left as it is
+		if got := checkAttrOf(dir, "lockable", []string{rel(instance[arg])})[rel(instance[arg])]; got != "set" {
+			fail("`git lfs track <pattern>` without a lock flag removed the lockable attribute of that pattern", fmt.Sprintf("pattern=%q lockable=%s written=%q", arg, got, string(attrs1)), "")
 		}
 	}
 	if !filename {
